@@ -453,7 +453,12 @@ impl Jwk {
     }
 
     if let Some(value) = self.key_ops() {
-      public.set_key_ops(value.iter().map(|op| op.invert()));
+      if self.is_public() {
+        // The key is already public: its operations are those of a public key.
+        public.set_key_ops(value.iter().cloned());
+      } else {
+        public.set_key_ops(value.iter().map(|op| op.invert()));
+      }
     }
 
     if let Some(value) = self.alg() {
